@@ -315,6 +315,11 @@ def run_tag(prog, tier, repo):
                         if end[0] in ('c', 'm') and root_local(b, end[1].local)[0] == r and not _narrowed(b, end[1].local) \
                                 and cfg.nodes_dominate([bj], bi):
                             idx_ok = (bj, int(m_arr.group(1)))
+                    fb = _filter_bound(prog, b, r)
+                    if fb is not None and fb <= cap:
+                        res.ok(key, b.loc(st[3]), f'the size went through `Option::filter(|s| *s <= {fb})`: only a size within the bound '
+                               f'reaches the construction')
+                        continue
                     if idx_ok:
                         res.ok(key, b.loc(st[3]), f'dominated by a `[..size]` index into the {idx_ok[1]}-byte storage array, which panics '
                                f'unless size <= {idx_ok[1]}')
@@ -354,6 +359,37 @@ def _const_through_casts(b, local):
             local = o[1].local
         else:
             return None
+    return None
+
+
+def _filter_bound(prog, b, local):
+    """`local` is (the payload of) an Option / Try value that passed `Option::filter(closure)` where the closure is a single
+    comparison `*x <= c` / `*x < c` of its argument with a constant: returns the largest value that passes, else None."""
+    for _ in range(8):
+        if local is None:
+            return None
+        r, _p = root_local(b, local)
+        sd = single_def(b, r)
+        if sd is None or sd[1] != 'term' or not sd[2][3] or sd[2][3][0][0] not in ('c', 'm'):
+            return None
+        t = sd[2]
+        short = (callee(t)[1] or '').split('::')[-1]
+        if short == 'filter' and len(t[3]) >= 2 and t[3][1][0] in ('c', 'm'):
+            ct = strip_refs_(b.locals[t[3][1][1].local])
+            cb = prog.bodies.get(ct.id) if ct.k == 'closure' else None
+            if cb is None or any(bl.term[0] in ('switch', 'call') for bl in cb.blocks if not bl.cleanup):
+                return None
+            for bl in cb.blocks:
+                for st in bl.stmts:
+                    if st[0] == 'a' and st[1].local == 0 and st[2][0] == 'bin' and st[2][1] in ('Le', 'Lt'):
+                        x, y = st[2][2], st[2][3]
+                        if x[0] in ('c', 'm') and root_local(cb, x[1].local)[0] == 2 and y[0] == 'k' and y[1].i is not None:
+                            return y[1].i if st[2][1] == 'Le' else y[1].i - 1
+            return None
+        if short in ('branch', 'unwrap', 'expect', 'unwrap_unchecked'):
+            local = t[3][0][1].local
+            continue
+        return None
     return None
 
 
@@ -833,6 +869,32 @@ def run_intern(prog, tier, repo):
                             lookups[fns[-1]].append(bj)
                         elif nm.endswith('::insert'):
                             inserts.append(bj)
+            # `first.get(k).or_else(|| second.get(k))`: the fallback closure runs exactly on the miss path of the first lookup, so a
+            # lookup inside it is a lookup at the adapter call
+            for cid_ in prog.closures_of.get(b.id, []):
+                cb_ = prog.bodies.get(cid_)
+                if cb_ is None:
+                    continue
+                inner = set()
+                for bl_ in cb_.blocks:
+                    tt_ = bl_.term
+                    if tt_[0] == 'call' and tt_[3] and not bl_.cleanup and (callee(tt_)[1] or '').endswith(('::get', '::contains_key')):
+                        from ..dataflow import through_capture as _tc
+                        r_, p_ = operand_root(cb_, tt_[3][0])
+                        _pb, r_, p_ = _tc(prog, cb_, r_, tuple(p_))
+                        fns_ = field_names(p_)
+                        if fns_ and fns_[-1] in maps:
+                            inner.add(fns_[-1])
+                if not inner:
+                    continue
+                for bj, bl in enumerate(b.blocks):
+                    tt = bl.term
+                    if bl.cleanup or tt[0] != 'call' or (callee(tt)[1] or '').split('::')[-1] not in ('or_else', 'unwrap_or_else', 'map_or_else'):
+                        continue
+                    if any(o[0] in ('c', 'm') and strip_refs(b.locals[o[1].local]).k == 'closure'
+                           and strip_refs(b.locals[o[1].local]).id == cid_ for o in tt[3]):
+                        for m_ in inner:
+                            lookups[m_].append(bj)
             # a combined lookup (`static.get(k)` else `temp.get(k)`) yields one Option and the push sits on its None side: the
             # paths that built `Some(..)` into that Option are hits and cannot be the ones reaching the push
             hit_blocks = []
